@@ -44,6 +44,7 @@ pub fn run_bytes(data: &[u8]) -> Option<(usize, Vec<u32>, String, String)> {
   if crate::hooks::mode() == crate::hooks::ThreadMode::Unmanaged {
     crate::hooks::set_mode(crate::hooks::ThreadMode::Solo);
   }
+  crate::vtime::set_unit(1);
   let o = match run::guarded(|| (st.prop.parts[part].run)(&mut c, &ctx)) {
     Ok(o) => o,
     Err(m) => return Some((part, c.record().to_vec(), "harness-panic".into(), m)),
